@@ -465,7 +465,11 @@ class ShadowStore:
             self.ready_ctr += 1
             for ir in newly:
                 ir.ready_t = self.now()
-                ir.ready_key = (self.ready_ctr, ir.put_seq)
+                if self.kind == "buffer" and ir.delay is not None:
+                    # availability order from the boundary model (put + delay), not from the store's word
+                    ir.ready_key = (ir.put_t + ir.delay, ir.put_seq)
+                else:
+                    ir.ready_key = (self.ready_ctr, ir.put_seq)
                 self.unready -= 1
                 if self.kind == "buffer" and ir.delay is not None:
                     if self.now() < ir.put_t + ir.delay - TOL * max(1.0, abs(self.now())):
@@ -738,6 +742,10 @@ class ShadowStore:
             if t0 is None:
                 self.suspects[rec] = now
             elif now > t0 + PERSIST:
+                if self.kind == "fleet" and rec.side == "get":
+                    self.viol("C14", "F6_batch_not_handed_over", "fleet:delivered-item-not-offered-to-waiting-retrieval",
+                              {"token": (rec.prio, rec.seq), "since": t0, "now": now, "ready": len(r) if r is not None else None,
+                               "granted_get": len(self.grant["get"])})
                 self.viol("C04", "lost_wakeup", f"{self.kind}:{rec.side}:pending-while-{why}",
                           {"token": (rec.prio, rec.seq), "since": t0, "now": now, "issued": rec.t_issue,
                            "free": self.free(), "ready": len(r) if r is not None else None,
